@@ -208,6 +208,8 @@ func c03Chains(r *Run) {
 		r.Add(c03ChainCase(ch, c03Placements[0], "", "none", "template|v-once"))
 		r.Add(c03ChainCase(ch, c03Placements[1], " ", "ws", "p|v-once"))
 		r.Add(c03ChainCase(ch, c03Placements[1], "", "none", "template|v-once"))
+		// (v-pre members are not generated: an element with v-pre is exempt from directive processing, so whether it is a member of a chain at
+		// all is v-pre's business, not this property's)
 	}
 	// adjacent chains
 	for _, a := range c03ChainShapes(2) {
